@@ -21,29 +21,41 @@ THEOREMS = [P + t for t in (
     "boot_accept_iff", "json_accept_iff", "int_of_digits", "range_holds_iff", "vlan_domain", "tag_domain", "node_name_domain",
     "dollar_admits_trailing_newline", "asn_domain", "accept_complete_many",
     "stored_list_all_strings", "wrong_type_rejected", "unknown_field_rejected", "keys_invariant",
-    "every_store_guarded", "every_entry_point_validated", "every_entry_point_probed", "modelled_writers_guarded",
+    "blob_text_accept_iff", "blob_value_accept_iff", "blob_none_is_empty_object", "blob_value_reencodes",
+    "set_fields_skeleton", "every_composed_name_validated", "every_store_guarded", "every_entry_point_validated", "every_entry_point_probed", "modelled_writers_guarded",
     "elem_name_invariant", "elem_step_exact", "elem_handle_follows_store",
     "create_accept_iff", "derived_classes_known", "derived_service_name_iff", "derived_service_suffixes_ok",
     "component_name_rejected_counterexample", "component_name_accepted_partial", "facility_name_iff",
     "facility_name_rejected_counterexample")]
 TRUSTED_BASE = [
-    "gen/validators.graph_writers: AST inventory of fim/user methods that write validated properties into the graph; a dict write must come from "
-    "*_sliver_to_graph_properties_dict, a raw write must be preceded by the validating property setter (theorem raw_writers_guarded)",
+    "gen/entrypoints.py: closed-world AST scan of fim/user/*.py, fim/slivers/*.py and abc_property_graph.py for statements that store a validated "
+    "value (attribute assignments to the validated sliver / Labels / Tags / JSON fields and to _name, setattr/__setattr__/__dict__ writes, "
+    ".tags.append, validated graph-property writes, add_*_sliver) with the guard idiom that dominates each (theorem every_store_guarded); "
+    "name-resolved call graph with the set_property/set_properties selector and the receiver class as context (theorems "
+    "every_entry_point_validated, every_composed_name_validated); the discovered entry points must equal harness/lib_c16ep.PROBES + EXEMPT",
+    "gen/entrypoints.py: derived-name idioms of generate_component / add_facility / add_switch and the catalogue's interface names (table `derived`), "
+    "statement skeleton of Labels._set_fields (set_fields_skeleton)",
     "gen/validators.py: regexes are parsed by CPython's own re._parser and translated opcode by opcode (subset check); anchoring read "
     "from the call sites by AST; range lambdas and size comparisons by AST; \\d, \\w, int()-stripped characters tabulated from the running interpreter",
     "CPython's re engine is modelled by Re.matches/accepts (proved equal to the denotational language; compared with re on every generated string)",
     "Python int(str) is modelled by V16.pyInt (sign, underscores, stripped characters, digit limit), checked differentially",
     "json.loads / json.dumps are inputs of the JSON-blob model (validity and length computed by CPython)",
-    "Model/Validate16.lean mirrors Labels._set_fields, Tags, set_name, set_boot_script, JSONData.__init__ by hand; checked differentially per entry point",
+    "Model/Validate16.lean mirrors Labels._set_fields, Tags, set_name, set_boot_script, JSONData.__init__, the four ways of renaming an element and the "
+    "derived-name checks of add_component / add_facility / add_switch by hand; checked differentially per entry point (ops labels, tags, name, ename, "
+    "ehist, create, boot, jsonstr, jsonobj, match)",
+    "the call graph over-approximates (method names resolved by name when the receiver is unknown): 'reaches the validator' is a may-fact; the "
+    "must-part is the closed-world store table plus the behavioural probes of every entry point",
 ]
-ENTRY_POINTS_NOTE = ("entry points that take a name/labels/tags/... are pinned in gen/validators.EXPECTED_ENTRY_POINTS (reflection over fim/user by AST); "
-                     "driven directly: rename, name/tags/boot_script/*_data/labels setters, set_property, set_properties, update_labels on Node, Component, "
-                     "Interface, NetworkService; add_node, add_component, add_network_service. add_facility/add_switch/add_link/add_storage/"
-                     "add_interface/add_child_interface/add_port_mirror_service construct through <Element>.__init__ -> sliver.set_name and are not driven separately")
+ENTRY_POINTS_NOTE = ("75 entry points discovered (99 entry-point x parameter rows); 74 probed directly (harness/lib_c16ep.PROBES: variants per sliver class / "
+                     "element kind / component model), 1 exempt (abstract ModelElement.__init__). After every probe the whole scratch topology is swept: "
+                     "every stored name / labels field / tag / boot script / JSON blob of every element - also the ones the library named itself - is a "
+                     "member of its domain and every element decodes.")
 ASSUMPTIONS = [
-    "values are str / list / None / other JSON-representable objects; attribute assignment on a Labels object that bypasses every setter is outside the quantifier",
+    "values are str / list / None / other objects (ints, bytes, containers, str subclasses, objects that are not of the parameter's class); attribute "
+    "assignment on a Labels / Tags / JSONData / sliver object by the caller (bypassing every setter) is outside the quantifier",
     "digit strings are shorter than sys.get_int_max_str_digits() (4300)",
-    "the documented domain of a field is L(its regex) ∩ its range (Unicode decimal digits count as digits, as in [\\d] and int()); for bdf the separator before the function is a literal dot; for numa an integer literal -?digits in -1..7",
+    "the documented domain of a field is L(its regex) ∩ its range (Unicode decimal digits count as digits, as in [\\d] and int()); for bdf the separator before the function is a literal dot; for numa an integer literal -?digits in -1..7; "
+    "for the free-form label fields: a str or a list of str",
 ]
 RULE = ("(field, scalar|list form, entry point, string) with strings from a per-format grammar: documented examples, boundary numbers, members "
         "and their mutations (trailing/embedded newline, padding, junk, wrong separator, dropped char, Unicode digits, lengths at each limit); "
@@ -314,6 +326,14 @@ def impl_eval(req):
         return I.jsonstr(req[1], req[2])
     if op == "jsonobj":
         return I.jsonobj(req[1], req[2])
+    if op == "jsontext":
+        return I.jsonstr(req[1], req[2])
+    if op == "jsonval":
+        try:
+            d = getattr(I.jd, req[1])(req[2])
+            return ["ok", len(d.json)]
+        except Exception as e:
+            return ["err", kind(e)]
     if op == "match":
         import re
         rx = I.cl.Labels.VALIDATORS[req[1]][0]
@@ -321,10 +341,22 @@ def impl_eval(req):
     raise core.Infra("bad op " + op)
 
 
+def _jwire(o):
+    if isinstance(o, dict):
+        return {"o": [[k, _jwire(v)] for k, v in o.items()]}
+    if isinstance(o, list):
+        return [_jwire(x) for x in o]
+    return o
+
+
 def to_wire(req):
     """what the Lean driver sees: JSON blobs are replaced by the facts CPython computed about them"""
     if req[0] == "ename":          # renaming an element of kind K is set_name of K's sliver class, whatever the entry point
         return ["name", Impl.SLIVER_OF[req[1]], req[3]]
+    if req[0] == "jsonval" and isinstance(req[2], str):
+        return ["jsontext", req[1], req[2]]                                # JSONData dispatches on isinstance(data, str)
+    if req[0] == "jsonval":
+        return ["jsonval", req[1], _jwire(req[2])]
     if req[0] == "jsonstr":
         return ["jsonstr", req[1], len(req[2]), json_facts(req[2])]
     if req[0] == "jsonobj" and isinstance(req[2], str):
@@ -482,10 +514,49 @@ def size_cases(rng):
     return reqs
 
 
+JSON_TEXTS = ["", " ", "{}", " {} ", "[]", "nope", "null", "true", "false", "tru", "nul", "True", "None", "NaN", "-NaN", "Infinity", "-Infinity", "+1", "01", "1.",
+              ".5", "5.", "-", "--1", "-0", "-0.0", "1e5", "1E-2", "1e", "1e+", "0x10", "1 ", " 1", "1 2", "[1 2]", "[1,]", "[,1]", "[1, 2", "]", "[", "{", "}",
+              '{"a":1,}', '{"a" 1}', "{'a': 1}", '{"a": 1} x', '{"a": {"b": [1, {"c": null}]}}', '{"a": 1, "a": 2}', '{1: 2}', '"abc', 'abc"', '"a\\"', '"\\x"',
+              '"\\/"', '"\\u12"', '"\\u00e9"', '"\\ud83d\\ude00"', '"tab\tin"', '"nl\nin"', '"é"', "\ufeff{}", "\n[\r\n1\t]\n", "[[[[[[[[[[1]]]]]]]]]]",
+              "123456789012345678901234567890", "-12", "[true, false, null]", '["a", "b"]', '{"k": "v"}', "[1.5]", "[1e400]", '"\\""', "\"\"", '"\x7f"']
+
+
+def json_model_cases(rng):
+    """the JSON parser / serialiser inside the model: validity and dumped length are computed by Lean, not handed over"""
+    reqs = []
+    for cls, m in sorted(L.JSON_MAX.items()):
+        for t in JSON_TEXTS:
+            reqs.append(["jsontext", cls, t])
+        for n in [m - 1, m, m + 1]:
+            reqs.append(["jsontext", cls, '"' + "a" * (n - 2) + '"'])
+            reqs.append(["jsontext", cls, "[" + ", ".join(["1"] * ((n - 1) // 3)) + "]"])
+            reqs.append(["jsontext", cls, '{"k": "' + "é" * (n - 9) + '"}'])
+            reqs.append(["jsonval", cls, ["a" * max(0, n - 4)]])
+            reqs.append(["jsonval", cls, {"k": "v" * max(0, n - 9)}])
+            reqs.append(["jsonval", cls, ["é" * ((n - 4) // 6)]])
+            reqs.append(["jsonval", cls, ["\U0001f600" * ((n - 4) // 12)]])
+            reqs.append(["jsonval", cls, list(range((n - 2) // 5))])
+        for o in [{}, [], 0, -5, True, None, {"a": [1, 2, {"b": None}]}, "", "abc", "quote\"back\\slash\n\t\x01\x7f", {"é": "中"}, [[], {}, [[]]], 10 ** 30,
+                  {"z": 1, "a": 2}, ["\u2028", "\x00"]]:
+            reqs.append(["jsonval", cls, o])
+        for _ in range(6):
+            reqs.append(["jsonval", cls, _rand_json(rng, 3)])
+    return reqs
+
+
+def _rand_json(rng, depth):
+    r = rng.random()
+    if depth == 0 or r < 0.35:
+        return rng.choice([0, 1, -1, 255, 2 ** 40, True, False, None, "", "a", "é", "\n", "a b", "\U0001d7d9", "x" * rng.randrange(0, 40)])
+    if r < 0.7:
+        return [_rand_json(rng, depth - 1) for _ in range(rng.randrange(0, 5))]
+    return {rng.choice(["a", "b", "k", "é", "", "long key"]) + str(i): _rand_json(rng, depth - 1) for i in range(rng.randrange(0, 4))}
+
+
 def all_cases(ctx, tag, per_field, names, tags):
     rng = ctx.sub_rng(tag)
     return (corpus_cases() + label_cases(rng, per_field) + tag_cases(rng, tags) + name_cases(rng, names) + size_cases(rng)
-            + create_cases(rng, names) + hist_cases(rng, names // 2))
+            + create_cases(rng, names) + hist_cases(rng, names // 2) + json_model_cases(rng))
 
 
 def corpus_cases():
@@ -666,6 +737,56 @@ def check_label_keys(I, res):
             if ok and lab is not None and (lab.vlan == "99999" or lab.mac == "zz"):
                 res.violation("C16:labels:non-field-key-disables-validator", "a non-field keyword switched off the validation of the next field",
                               {"kind": "lkey", "key": key, "list": False, "path": "ctor"}, observed=lab.to_json())
+
+
+def check_misc_types(I, res):
+    """tags, names, boot scripts and JSON blobs handed over as the wrong type (bytes, int, nested containers, str subclass)"""
+    Tags = I.tg.Tags
+    wrong = {"bytes": b"abc", "int": 5, "float": 1.5, "None": None, "dict": {"a": 1}, "set": {"abc"}, "nested": ["a", ["b"]], "[bytes]": [b"abc"],
+             "[int]": ["a", 5], "(bytes,)": (b"a",), "[None]": [None], "bool": True, "gen": None}
+    for nm, v in wrong.items():
+        for pname, mk in (("arg", lambda: Tags(v)), ("mixed", lambda: Tags("ok", v)), ("json", lambda: Tags.from_json(json.dumps(v)))):
+            if nm in ("bytes", "set", "[bytes]", "(bytes,)", "gen") and pname == "json":
+                continue
+            if nm == "gen":
+                v = (x for x in ["a b"])
+            ok, t, ek = _accepts(mk)
+            res.evaluations += 1
+            res.count("types:tags:%s" % ("accept" if ok else "reject"))
+            if ok and t is not None and not all(isinstance(x, str) and L.tag_ok(x) for x in t.tags):
+                res.violation("C16:tags:%s:non-string-stored" % pname, "a tag that is not a str of the documented pattern is stored",
+                              {"kind": "mtype", "what": "tags", "value": nm, "path": pname}, observed=repr(t.tags)[:80])
+    for cls in sorted(I.classes):
+        for nm, v in (("bytes", b"ab"), ("int", 12), ("list", ["ab"]), ("tuple", ("ab",)), ("bytearray", bytearray(b"ab")), ("strsub", _S("ab")),
+                      ("strsub-bad", _S("a\n")), ("bool", True)):
+            for pname, fn in name_paths(I, cls, v).items():
+                if pname.startswith("add_") or pname == "decode":
+                    continue
+                ok, stored, ek = _accepts(fn)
+                res.evaluations += 1
+                res.count("types:name:%s" % ("accept" if ok else "reject"))
+                if ok and not (isinstance(stored, str) and L.NAME_DOMAIN[cls](stored)):
+                    res.violation("C16:name.%s:%s:non-string-stored" % (cls, pname), "an element name that is not a str of the documented pattern is stored",
+                                  {"kind": "mtype", "what": "name", "value": nm, "path": pname}, observed=repr(stored)[:60])
+    for nm, v in (("bytes", b"x" * 10), ("bytes-long", b"x" * 2000), ("int", 5), ("list", ["x"] * 2000), ("strsub-long", _S("x" * 1024))):
+        x = I.classes["NodeSliver"]()
+        for pname, fn in (("set_boot_script", lambda: x.set_boot_script(v)), ("set_properties", lambda: x.set_properties(boot_script=v)),
+                          ("elem", lambda: setattr(I.node, "boot_script", v))):
+            ok, _, ek = _accepts(fn)
+            res.evaluations += 1
+            if ok:
+                res.violation("C16:boot_script:%s:non-string-stored" % pname, "a boot script that is not a str under the limit is stored",
+                              {"kind": "mtype", "what": "boot", "value": nm, "path": pname})
+    for cls, m in sorted(L.JSON_MAX.items()):
+        c = getattr(I.jd, cls)
+        for nm, v in (("bytes", b"{}"), ("set", {1}), ("obj", object()), ("bytes-in-list", [b"a"]), ("strsub-long", _S('"' + "a" * m + '"')),
+                      ("tuple-long", ("a" * m,)), ("nan", float("nan")), ("int-keys", {1: 2})):
+            ok, d, ek = _accepts(lambda: c(v))
+            res.evaluations += 1
+            res.count("types:json:%s" % ("accept" if ok else "reject"))
+            if ok and not (isinstance(d.json, str) and len(d.json) <= m and json_facts(d.json)):
+                res.violation("C16:%s:ctor:non-json-stored" % cls, "a JSON blob whose stored text is not JSON within the limit",
+                              {"kind": "mtype", "what": "json", "value": nm, "path": "ctor"}, observed=repr(d.json)[:60])
 
 
 def tag_paths(I, s):
@@ -1062,6 +1183,149 @@ def anywhere_in_graph(c, dom, spec):
     return any(holds(dom, spec, p.get(prop)) for p in c.all_props())
 
 
+
+# ---------------------------------------------------------------- whatever ends up in the graph is a member
+
+CLASS_SLIVER = {"NetworkNode": "NodeSliver", "CompositeNode": "CompositeNodeSliver", "Component": "ComponentSliver",
+                "ConnectionPoint": "InterfaceSliver", "NetworkService": "NetworkServiceSliver", "Link": "NetworkLinkSliver"}
+JSON_PROPS = {"UserData": "UserData", "MeasurementData": "MeasurementData", "LayoutData": "LayoutData"}
+
+
+def graph_invalid(c):
+    """every element of the scratch topology - also the ones the library created on its own with names it composed (derived
+    services, ServicePorts, links, interfaces of components / facilities / switches, sub-interfaces): name against the pattern of
+    its class, every labels property field by field, tags, boot script, JSON blobs. -> list of (what, element name, value)"""
+    bad = []
+    gm = c.t.graph_model
+    try:
+        ids = gm.list_all_node_ids()
+    except Exception:
+        return bad
+    for nid in ids:
+        classes, props = gm.get_node_properties(node_id=nid)
+        cls = next((CLASS_SLIVER[x] for x in classes if x in CLASS_SLIVER), None)
+        nm = props.get("Name")
+        if cls is None:
+            continue
+        if not isinstance(nm, str) or not L.NAME_DOMAIN[cls](nm):
+            bad.append(("name." + cls, nm, nm))
+        for prop in ("Labels", "PeerLabels", "LabelAllocations"):
+            raw = props.get(prop)
+            if raw in (None, "", "None"):
+                continue
+            try:
+                d = json.loads(raw)
+            except ValueError:
+                bad.append((prop + ":not-json", nm, raw))
+                continue
+            if not isinstance(d, dict):
+                bad.append((prop + ":not-a-dict", nm, raw))
+                continue
+            for f, v in d.items():
+                dom = L.LABEL_DOMAIN.get(f)
+                vs = v if isinstance(v, list) else [v]
+                if f not in c.I.fields or not all(isinstance(x, str) and (dom is None or dom(x)) for x in vs):
+                    bad.append(("%s.%s" % (prop, f), nm, v))
+        raw = props.get("Tags")
+        if raw not in (None, "", "None"):
+            try:
+                t = json.loads(raw)
+                if not (isinstance(t, list) and all(isinstance(x, str) and L.tag_ok(x) for x in t)):
+                    bad.append(("Tags", nm, raw))
+            except ValueError:
+                bad.append(("Tags:not-json", nm, raw))
+        bs = props.get("BootScript")
+        if bs is not None and not (isinstance(bs, str) and len(bs) < L.BOOT_LIMIT):
+            bad.append(("BootScript", nm, len(bs)))
+        for prop, jc in JSON_PROPS.items():
+            raw = props.get(prop)
+            if raw is not None and not (isinstance(raw, str) and len(raw) <= L.JSON_MAX[jc] and json_facts(raw)):
+                bad.append((prop, nm, len(raw)))
+    return bad
+
+
+def sweep(c, entry, variant, dom, case, res):
+    for what, nm, val in graph_invalid(c):
+        res.violation("C16:graph.%s:stored-outside-domain:via.%s" % (what, entry),
+                      "after %s an element of the topology holds a %s outside its documented domain" % (entry, what.split(".")[0].split(":")[0]),
+                      case, expected="every stored value is a member", observed="%r on element %r" % (val if not isinstance(val, str) else val[:60], (nm or "")[:60]))
+    # and every element can be rebuilt from the graph
+    gm = c.t.graph_model
+    try:
+        ids = gm.list_all_node_ids()
+    except Exception:
+        ids = []
+    for nid in ids:
+        classes, props = gm.get_node_properties(node_id=nid)
+        fn = {"NetworkNode": gm.build_deep_node_sliver, "Component": gm.build_deep_component_sliver, "ConnectionPoint": gm.build_deep_interface_sliver,
+              "NetworkService": gm.build_deep_ns_sliver, "Link": gm.build_deep_link_sliver}
+        for k, f in fn.items():
+            if k in classes:
+                ok, _, ek = _accepts(lambda: f(node_id=nid))
+                if not ok:
+                    res.violation("C16:graph.%s:cannot-be-decoded:via.%s" % (k, entry), "after %s an element of the topology cannot be rebuilt from the graph" % entry,
+                                  case, expected="decodable", observed="%s on %r" % (ek, (props.get("Name") or "")[:60]))
+
+
+
+# ---------------------------------------------------------------- names the library composes from several caller inputs
+
+def scenario(I, names, res):
+    """node + component with interfaces + service connected to them + peering + facility + switch + sub-interface, with the given
+    names; each step may be rejected (derived names must fit the other class's pattern - by design), but whatever is in the
+    graph afterwards - also the elements the library named itself - has to be a member and decodable"""
+    fu = I.fu
+    c = EP.C(I)
+    case = {"kind": "scenario", "names": names}
+    steps = {}
+
+    def step(k, f):
+        ok, r, ek = _accepts(f)
+        steps[k] = r if ok else None
+        res.count("scenario:%s:%s" % (k, "accept" if ok else "reject"))
+        return steps[k]
+    try:
+        n1 = step("node", lambda: c.t.add_node(name=names["node"], site="S1"))
+        n2 = step("node2", lambda: c.t.add_node(name=names["node"] + "2", site="S1")) or step("node2b", lambda: c.t.add_node(name="n2", site="S1"))
+        mt = getattr(fu.ComponentModelType, names.get("model", "SmartNIC_ConnectX_6"))
+        c1 = n1 and step("comp", lambda: n1.add_component(name=names["comp"], model_type=mt))
+        c2 = n2 and step("comp2", lambda: n2.add_component(name=names["comp"], model_type=mt))
+        ifs = [x.interface_list[0] for x in (c1, c2) if x is not None and len(x.interface_list) > 0]
+        step("service", lambda: c.t.add_network_service(name=names["svc"], nstype=fu.ServiceType.L2Bridge, interfaces=ifs))
+        if c1 is not None and len(c1.interface_list) > 1 and c1.interface_list[1].type == fu.InterfaceType.DedicatedPort:
+            step("child", lambda: c1.interface_list[1].add_child_interface(name=names["child"], labels=I.cl.Labels(vlan="100")))
+        a = step("l3a", lambda: c.t.add_network_service(name=names["svc"] + "a", nstype=fu.ServiceType.L3VPN, interfaces=[]))
+        b = step("l3b", lambda: c.t.add_network_service(name=names["svc"] + "b", nstype=fu.ServiceType.L3VPN, interfaces=[]))
+        if a is not None and b is not None:
+            step("peer", lambda: a.peer(b))
+        step("facility", lambda: c.t.add_facility(name=names["node"] + "f", site="S2"))
+        step("switch", lambda: c.t.add_switch(name=names["node"] + "w", site="S3", nports=2))
+        res.evaluations += 1
+        sweep(c, "scenario", "", "name", case, res)
+    finally:
+        c.close()
+
+
+def scenario_oracle(ctx, I, res, scale=1):
+    rng = ctx.sub_rng("scenario")
+    models = ["SmartNIC_ConnectX_6", "SharedNIC_ConnectX_6", "FPGA_Xilinx_U280", "GPU_Tesla_T4"]
+    det = [{"node": "n1", "comp": "a b", "svc": "s1", "child": "c 1"},
+           {"node": "n1", "comp": "c" * 246, "svc": "s" * 255, "child": "c" * 255},
+           {"node": "n1", "comp": "c" * 252, "svc": "s" * 254, "child": "x"},
+           {"node": "n" * 254, "comp": "c" * 252, "svc": "sv", "child": "a+b"},
+           {"node": "n" * 250, "comp": "nic", "svc": "s.1", "child": "ch"},
+           {"node": "n" * 124, "comp": "c" * 125, "svc": "s_1", "child": "ch"},
+           {"node": "n-1.x", "comp": "c_1 x", "svc": "sv-1", "child": "a:b/c"}]
+    for d in det:
+        for m in models[:3]:
+            scenario(I, dict(d, model=m), res)
+    for _ in range(ctx.scale(12, 120) * scale):
+        node = rng.choice(L.name_candidates("NodeSliver", rng, 40))
+        comp = rng.choice(L.name_candidates("ComponentSliver", rng, 40))
+        scenario(I, {"node": node, "comp": comp, "svc": rng.choice(L.name_candidates("NetworkServiceSliver", rng, 40)),
+                     "child": rng.choice(L.name_candidates("InterfaceSliver", rng, 40)), "model": rng.choice(models)}, res)
+
+
 def check_entry(I, entry, variant, own, dom, spec, res):
     pr = EP.PROBES[entry]
     if EP.overridden(entry, dom, spec):
@@ -1082,6 +1346,7 @@ def check_entry(I, entry, variant, own, dom, spec, res):
 
 def _check_entry(I, c, pr, entry, variant, own, dom, spec, val, inside, case, sig, res):
     ok, obj, ek = _accepts(lambda: pr.run(c, variant, dom, val))
+    sweep(c, entry, variant, dom, case, res)
     res.evaluations += 1
     res.count("entry:%s:%s" % (dom.split(":")[0], "accept" if ok else "reject"))
     if ok:
@@ -1250,7 +1515,11 @@ def check_elem_attr(I, kind, attr, raw, res):
 
 def run_oracle_case(I, c, res):
     k = c["kind"]
-    if k == "ltype":
+    if k == "mtype":
+        check_misc_types(I, res)
+    elif k == "scenario":
+        scenario(I, c["names"], res)
+    elif k == "ltype":
         check_label_types(I, res, [c["field"]])
     elif k == "lkey":
         check_label_keys(I, res)
@@ -1321,8 +1590,10 @@ def oracle(ctx, res, scale=1):
             for s in [good_example(f)] + rng.sample(cands, max(6, m // 6)):
                 check_elem_attr(I, knd, "labels", (f, s), res)
     entry_points_oracle(ctx, I, res, scale)
+    scenario_oracle(ctx, I, res, scale)
     check_label_types(I, res, ["vlan", "mac", "numa", "asn", "local_name", "device_name", "instance", "ipv6"] + rng.sample(I.fields, 3))
     check_label_keys(I, res)
+    check_misc_types(I, res)
     for r in size_cases(rng):
         if r[0] == "boot" and (r[1] is None or isinstance(r[1], str)):
             check_boot(I, r[1], res)
